@@ -172,9 +172,9 @@ def evalp(ws, row):
 def gen_table_cases(ctx, scale):
     r = ctx.rng
     cases = []
-    for _ in range(60 * scale): cases.append(gen_table_case(r, 'small'))
-    for _ in range(12 * scale): cases.append(gen_table_case(r, 'medium'))
-    for _ in range(3 * scale): cases.append(gen_table_case(r, 'big'))
+    for _ in range(160 * scale): cases.append(gen_table_case(r, 'small'))
+    for _ in range(36 * scale): cases.append(gen_table_case(r, 'medium'))
+    for _ in range(8 * scale): cases.append(gen_table_case(r, 'big'))
     return cases
 
 
